@@ -10,6 +10,7 @@ import z3
 from . import sym
 from .values import *
 from .loader import FuncDef, ClassInfo
+from . import gmode
 
 
 class Raise(Exception):
@@ -185,8 +186,10 @@ class Path:
         return feas[0]
 
     # -- obligations -----------------------------------------------------------------
-    def require(self, cond, label, info=None):
+    def require(self, cond, label, info=None, qfacts=False):
         """A mid-path proof obligation (e.g. a builtin precondition); assumed afterwards."""
+        if qfacts and getattr(self, "qm_source", None) is not None:
+            info = {"info": info, "qfacts": True}
         if isinstance(cond, bool):
             cond = z3.BoolVal(cond)
         cond = z3.simplify(cond)
@@ -228,6 +231,11 @@ def explore(make_run, max_paths=5000):
                 out = ("ret", thunk())
             except Raise as r:
                 out = ("raise", r.exc, r.where)
+            except Exception as ex_:
+                if type(ex_).__name__ == "LoopChecked":
+                    out = ("loopcheck", None)
+                else:
+                    raise
             aborted = False
         except PathAbort:
             aborted = True
@@ -445,8 +453,16 @@ class Interp:
                     env.vars[p] = self.eval(a.defaults[didx], defenv)
                 else:
                     raise Raise(self.bi.make_exc("TypeError", f"missing argument {p} of {fname}"), fname)
+        if any(isinstance(x, gmode.StarArgs) for x in args[:len(params)]):
+            raise Unsupported("a symbolic-length list spread over named parameters")
         extra = args[len(params):]
-        if a.vararg is not None:
+        stars = [x for x in extra if isinstance(x, gmode.StarArgs)]
+        if stars:
+            from . import gexec
+            if a.vararg is None:
+                raise Unsupported("a symbolic-length list passed to a function without *args")
+            env.vars[a.vararg.arg] = gexec.concat_star(self, extra)
+        elif a.vararg is not None:
             env.vars[a.vararg.arg] = tuple(extra)
         elif extra:
             raise Raise(self.bi.make_exc("TypeError", f"too many arguments for {fname}"), fname)
@@ -557,6 +573,10 @@ class Interp:
         it = self.eval(st.iter, env)
         if st.orelse:
             raise Unsupported("for-else")
+        if isinstance(it, gmode.SList):
+            from . import gexec
+            gexec.for_loop(self, it, st, env)
+            return
         special = self.bi.for_special(it, st, env)
         if special:
             return
@@ -640,7 +660,11 @@ class Interp:
         args = []
         for a in node.args:
             if isinstance(a, ast.Starred):
-                args.extend(self.bi.iterate(self.eval(a.value, env)))
+                sv = self.eval(a.value, env)
+                if isinstance(sv, gmode.SList):
+                    args.append(gmode.StarArgs(sv))
+                else:
+                    args.extend(self.bi.iterate(sv))
             else:
                 args.append(self.eval(a, env))
         kwargs = {}
@@ -787,6 +811,11 @@ class Interp:
         out = []
         if not hasattr(node, "elt"):
             node = _CompView(node)
+        if len(node.generators) >= 1:
+            first = self.eval(node.generators[0].iter, env)
+            if isinstance(first, gmode.SList):
+                from . import gexec
+                return gexec.comprehension(self, node, env, first, elt_fn)
 
         def rec(gi, e):
             if gi == len(node.generators):
@@ -809,6 +838,7 @@ class Interp:
         self.heap_log.append(("alloc-list", id(v), None, self.where()))
         return v
 
+
     def ex_DictComp(self, node, env):
         # {k: v for k in iterable}: over a set of names this is the for-each-insert pattern
         if len(node.generators) == 1 and not node.generators[0].ifs:
@@ -828,7 +858,10 @@ class Interp:
         return self.bi.make_set(self._comp(node, env, lambda e: self.eval(node.elt, e)))
 
     def ex_GeneratorExp(self, node, env):
-        return GeneratorList(self._comp(node, env, lambda e: self.eval(node.elt, e)))
+        v = self._comp(node, env, lambda e: self.eval(node.elt, e))
+        if isinstance(v, gmode.SList):
+            return v
+        return GeneratorList(v)
 
     # ------------------------------------------------------------------ attributes
     def getattr_(self, o, attr):
